@@ -3,12 +3,23 @@
 import json, sys
 pid, wt, n = sys.argv[1], sys.argv[2], (sys.argv[3] if len(sys.argv) > 3 else "2")
 p = [json.loads(l) for l in open('/verif/properties.jsonl') if json.loads(l)['id'] == pid][0]
+import glob, os
+tried = []
+for d in sorted(glob.glob(f'/verif/seeded/{pid}-*/meta.json')):
+    try:
+        m = json.load(open(d))
+        tried.append("- " + " ".join(str(m.get('what_changed', '')).split())[:300])
+    except Exception:
+        pass
+avoid = ("\n\nChanges of the following kinds were ALREADY produced by earlier rounds — yours must be different in location or mechanism "
+         "(other functions, other branches, other cooperating sites, other configurations):\n" + "\n".join(tried) + "\n") if tried else ""
 prop = json.dumps({k: p[k] for k in ('id', 'title', 'statement', 'quantifier', 'why_tests_cant', 'anchors')}, indent=1)
 print(f"""You are testing how well a C library's correctness properties are guarded. The library is awslabs/aws-c-common. You have your own scratch git worktree of it at {wt} (a detached checkout of the current HEAD). Work ONLY inside {wt} (and subdirectories you create there or under {wt}_out); do not read or write /verif, /repo, /root, or other directories under /tmp — your result must be independent of any existing verification machinery. No network.
 
 The property (behavioural, must hold for every input / schedule / history it quantifies over):
 {prop}
 
+{avoid}
 YOUR TASK: produce {n} DIFFERENT source changes (each one small, realistic — the kind of slip a maintainer could make in a refactor or "optimisation": an off-by-one in a guard, a dropped update, a wrong branch order, a boundary condition, two cooperating sites that each look fine alone) to the library such that, for each change separately:
  1. the library still compiles without new warnings-as-errors and the EXISTING test suite still passes completely. Build and test like this: `cmake -G Ninja -S {wt} -B {wt}/_b -DCMAKE_BUILD_TYPE=RelWithDebInfo >/dev/null && cmake --build {wt}/_b 2>&1 | tail -3 && ctest --test-dir {wt}/_b -j8 --timeout 900 2>&1 | tail -5` (451 tests, all must pass; run it once BEFORE changing anything to see the baseline).
  2. the change BREAKS the property above (a genuine violation of the stated behaviour, not merely different internals), and
